@@ -416,6 +416,18 @@ func VerifC14_Finalise() {
 			now := metav1.Now()
 			canary.DeletionTimestamp = &now
 		}
+		// the owner the canary Ingress was created under: none, the owner finalising it now, or an earlier
+		// incarnation of it (Rollout re-created under the same name, routing handed from a Rollout to a
+		// TrafficRouting object) — the canary Ingress is named after the stable one and is withdrawn all the same
+		// (seed C14-15: Finalise skipped a canary Ingress whose owner UID differed)
+		switch verifrt.IntRange("store.canary.owner", 0, 2) {
+		case 1:
+			canary.OwnerReferences = []metav1.OwnerReference{r.conf.OwnerRef}
+		case 2:
+			o := r.conf.OwnerRef
+			o.UID = "uid-of-an-earlier-owner"
+			canary.OwnerReferences = []metav1.OwnerReference{o}
+		}
 		c.Objects = append(c.Objects, canary)
 	}
 	modified, err := r.Finalise(context.TODO())
